@@ -427,6 +427,14 @@ def install(reg):
     for nm in ("exp", "log", "log10", "sqrt", "sin", "cos"):
         _ew1(nm, nm)
 
+    @fn("numpy.isclose")
+    def np_isclose(itp, a, k):
+        rtol = term_of(k.get("rtol", a[2] if len(a) > 2 else T.from_float(1e-05)))
+        atol = term_of(k.get("atol", a[3] if len(a) > 3 else T.from_float(1e-08)))
+        cx = itp.cx
+        return A.ewise(cx, lambda x, y: T.le(mathfn.m_abs(cx, T.sub(x, y)), T.add(atol, T.mul(rtol, mathfn.m_abs(cx, y)))),
+                       [to_array_if_seq(itp, a[0]), to_array_if_seq(itp, a[1])], "bool")
+
     @fn("numpy.ndim")
     def np_ndim(itp, a, k):
         v = a[0]
@@ -696,6 +704,10 @@ def install(reg):
             return wrap(out)
         kap = z3.Int("kappa!")
         body = z3.simplify(T.zb(g((kap,))))
+        if z3.is_false(body):
+            return 0
+        if z3.is_true(body):
+            return wrap(n)
         import hashlib
         h = hashlib.sha1((T.zi(n).sexpr() + "|" + body.sexpr()).encode()).hexdigest()[:10]
         c = cx.new_const(f"count_{h}", "int")
@@ -833,6 +845,7 @@ def install(reg):
         cx.fact(z3.ForAll([k1], z3.Implies(z3.And(k1 >= 1, k1 < T.zi(n)), cs(k1) == cs(k1 - 1) + T.zr(g((k1,)))), patterns=[cs(k1)]), "numpy:cumsum[k]=cumsum[k-1]+a[k]")
         out = SArr.fresh((n,), lambda idx: cs(T.zi(idx[0])), "real", name=f"cumsum{o}")
         out.cumsum_info = (cs, v)
+        itp.scratch["cumsum_info"] = cs
         return out
 
     @fn("numpy.nonzero")
